@@ -258,12 +258,20 @@ class SpaceStubSim(DynamicOrderSimulation):
                         kwargs["null_action"] = spc.to_py(self.space_desc[i][0], na)
                     if no is not None:
                         kwargs["null_observation"] = spc.to_py(self.space_desc[i][1], no)
+                if script.get("seeded"):
+                    kwargs["seed"] = 17 + i          # the optional `seed=`: finalize() seeds the agent's spaces
                 agents[aid] = Agent(id=aid, observation_space=spc.to_gym(self.space_desc[i][1]),
                                     action_space=spc.to_gym(self.space_desc[i][0]), **kwargs)
             else:
                 agents[aid] = PrincipleAgent(id=aid)
         self.agents = agents
         self.finalize()
+        if script.get("seeded"):
+            # ... and the simulation has already drawn from them (the generators are no longer in their seed state)
+            for a in agents.values():
+                if isinstance(a, Agent):
+                    a.action_space.sample()
+                    a.observation_space.sample()
         self.ep = 0
         self.t = 0
         self.reads = [0] * self.n
